@@ -1,9 +1,12 @@
 #!/bin/sh
-# usage: bin/try_mutant.sh <patch.diff> <check id> [extra args]   -- applies the patch to /repo, runs the quick check, reverts the patch
+# usage: bin/try_mutant.sh <patch.diff> <check id> [extra args]
+# Applies the patch in a scratch worktree of /repo (never in /repo itself), runs the quick check of <check id> against it with a scratch
+# evidence directory, removes the worktree.  Safe to run while other checks read /repo.  Log: /scratch/mut_<id>.log
 P="$1"; ID="$2"; shift 2
-cd /repo || exit 9
-git apply --check "$P" || { echo "PATCH DOES NOT APPLY"; exit 9; }
-git apply "$P"
-cd /verif && bin/check "$ID" --tier quick "$@" > /scratch/mut_$ID.log 2>&1; RC=$?
-cd /repo && git apply -R "$P"
+WT=/tmp/tm_$ID.$$; EV=/scratch/tm_ev_$ID.$$
+git -C /repo worktree add -q --detach $WT HEAD || exit 9
+git -C $WT apply "$P" || { echo "PATCH DOES NOT APPLY"; git -C /repo worktree remove --force $WT; exit 9; }
+mkdir -p $EV
+VERIF_REPO=$WT VERIF_EVID=$EV /verif/bin/check "$ID" --tier quick "$@" > /scratch/mut_$ID.log 2>&1; RC=$?
+git -C /repo worktree remove --force $WT; rm -rf $EV
 echo "exit=$RC"; grep -c "^VIOLATION" /scratch/mut_$ID.log; grep "^VIOLATION\|^HARNESS\|^\[C" /scratch/mut_$ID.log | head -5; grep -A1 "^VIOLATION" /scratch/mut_$ID.log | grep -v "^VIOLATION\|^--" | head -3
